@@ -20,6 +20,8 @@ PROFILES = {
         "knobs": {"p_fault": [0.0, 0.05, 0.1], "p_natural": [0.0, 0.05, 0.1], "p_ragged": [0.0, 0.0, 0.05],
                   "p_col_from_vec": [0.0, 0.3], "max_objs": [6, 9, 12], "p_donor": [0.5, 0.8]},
         "steps": (15, 60),
+        # identity reuse is legal at any time; a cache keyed on id() only shows under it
+        "vid": [[1, 0, 0], [1, 0, 0], [1, 2, 0], [1, 1, 2]],
     },
     # C02: rectangularity under construction / structural ops / failing inputs
     "shape": {
@@ -70,6 +72,7 @@ PROFILES = {
         "knobs": {"p_fault": [0.0, 0.05], "p_natural": [0.0, 0.05], "p_wider": [0.1, 0.25], "max_objs": [4, 6, 9],
                   "rare": [0.0, 0.02]},
         "steps": (15, 50),
+        "vid": [[1, 0, 0], [1, 2, 0], [1, 1, 2], [0, 1, 3]],
     },
     # C18: derivation compositions over named / unnamed / repeated names
     "derive": {
@@ -80,7 +83,8 @@ PROFILES = {
         },
         "core": ["vec", "tab_dict", "binop", "agg", "join"],
         "knobs": {"p_unnamed": [0.2, 0.4], "p_dupname": [0.05, 0.25], "p_unnamed_col": [0.05, 0.2], "p_wider": [0.1, 0.2],
-                  "max_objs": [6, 9], "names": [["a", "b", "c", "d", "x", "y"], ["a", "b", "A b", "x-y", "sum", "a"]]},
+                  "max_objs": [6, 9], "names": [["a", "b", "c", "d", "x", "y"], ["a", "b", "A b", "x-y", "sum", "a"],
+                            ["a", "b", "a_sum", "a_sum2", "a_count", "b_mean", "key", "key2", "col_sum"]]},
         "steps": (15, 50),
     },
     # C17: hostile names, renames through table and views, accessor probes in seeded order
